@@ -1,7 +1,7 @@
 /*
  * raidmc_minors.h - C03(a): every square sub-matrix of a generator table is regular.
  *
- *   raidmc minors matrix=cauchy|power|power255ref [colsk=<n1,..,n6>] [plant=1]
+ *   raidmc minors matrix=cauchy|power|power255ref [colsk=<n1,..,n6>] [plant=1] [brute=1] [scalar=1]
  *                 [threads=<n>] [deadline=<epoch>]
  *   raidmc minor1 is spelled: raidmc minors matrix=.. rows=<list> cols=<list>   (one determinant)
  *
@@ -10,6 +10,8 @@
  * matrix=power255ref  the power matrix from its definition, 3 x 255: what the genz
  *                     functions compute for nd up to 255 (C02 ties them to it)
  * colsk: number of leading columns used for k = 1..6 (default: all), the quick-tier bound.
+ * plant=1 makes one 2x2 minor vanish in the in-memory copy, brute=1 recounts the same space with
+ * plain determinants: together they are the harness self-test run by checks/C03.py.
  *
  * Enumeration: for every row subset R (|R| = k) a depth-first walk over increasing column
  * tuples c1 < c2 < ... carries the block A[R][*] reduced by Gaussian elimination on the
@@ -386,6 +388,23 @@ static int cmd_minors(void)
 		say("MINORS_K k=%d cols=%d minors=%llu prefixes=%llu singular=%llu complete=%d\n", k, MN_colsk[k],
 			(unsigned long long)km, (unsigned long long)kp, (unsigned long long)ks, kcomplete);
 		tot_minors += km; tot_prefixes += kp; tot_sing += ks;
+	}
+	/* harness self-check: the same space by plain determinants (small colsk only) */
+	if (arg_int("brute", 0)) {
+		uint64_t bm = 0, bs = 0;
+		for (int k = 1; k <= MN_rows; ++k) {
+			int R[6], C[6];
+			if (MN_colsk[k] < k) continue;
+			comb_first(k, R);
+			do {
+				comb_first(k, C);
+				do {
+					++bm;
+					if (mn_det(k, R, C) == 0) ++bs;
+				} while (comb_next(k, MN_colsk[k], C));
+			} while (comb_next(k, MN_rows, R));
+		}
+		say("BRUTE minors=%llu singular=%llu\n", (unsigned long long)bm, (unsigned long long)bs);
 	}
 	say("%s minors matrix=%s rows=%d cols=%d avx2=%d minors=%llu prefixes=%llu singular=%llu table_differs=%ld skipped_items=%d fails=%ld\n",
 		skipped ? "CAPPED" : "OK", mx, MN_rows, MN_cols, MN_avx2,
